@@ -620,6 +620,19 @@ def check_rparse(ctx, prog):
         ctx.ob("R-PARSE", "%s parses its operands only with %s" % (n, sorted(allowed)),
                got == allowed, key="R-PARSE:layer:" + n, where=fn[n]["span"],
                detail={"calls": sorted(got)})
+    # an atom is one token (or one bracketed / parenthesised group): parse_regex_4 consumes each kind
+    # of literal at one place and has no loop of its own, so that a postfix operator that follows
+    # applies to that atom alone
+    p4 = parsed_tokens(fn["parse_regex_4"])
+    for lit in ("LitStr", "LitChar"):
+        n_lit = sum(1 for t, _ in p4 if t == lit)
+        ctx.ob("R-PARSE", "parse_regex_4 consumes exactly one %s token for a %s atom" % (
+            lit, "string" if lit == "LitStr" else "character"), n_lit == 1,
+            key="R-PARSE:atom:" + lit, where=fn["parse_regex_4"]["span"], detail={"parse sites": n_lit})
+    loops4, _dom4, _preds4 = cfg.natural_loops(fn["parse_regex_4"]["mir"]["blocks"])
+    ctx.ob("R-PARSE", "parse_regex_4 has no loop: an atom does not absorb the tokens that follow it",
+           not loops4, key="R-PARSE:atom:loop", where=fn["parse_regex_4"]["span"],
+           detail={"loop headers": sorted(loops4)})
     # operators per level
     ops = {"parse_regex_0": {"Or"}, "parse_regex_2": {"Star", "Question", "Plus"},
            "parse_regex_3": {"Pound"}}
